@@ -1182,6 +1182,21 @@ func genPlan(rng *rand.Rand, name string, mode string) *Plan {
 	}
 	next := map[string]uint64{}  // next request index per pair (generator's own bookkeeping, not an oracle)
 	nextR := map[string]uint64{} // next receipt index per pair
+	if mode == "group" && len(p.Unord) == 0 && len(p.Black) == 0 && rng.Intn(4) == 0 {
+		// a one-to-many transaction whose last receipt arrives in the very block at whose end a one-to-one request of the same
+		// source chain expires: that chain's pier is owed a timeout list and a multi-tx list in one wrapper
+		s, d1, d2 := "chainA:svc1", "chainB:svc1", "chainC:svc1"
+		g, gi := []string{d1, d2}, []uint64{1, 1}
+		last := []string{"OK", "OK", "FAIL"}[rng.Intn(3)]
+		p.Steps = append(p.Steps,
+			Step{Step: "block", Txs: []Tx{{K: "ibtp", Src: s, Dst: d1, Idx: 1, Typ: "REQ", Proof: "ok", GDst: g, GIdx: gi, From: "u1"},
+				{K: "ibtp", Src: s, Dst: d2, Idx: 1, Typ: "REQ", Proof: "ok", GDst: g, GIdx: gi, From: "u1"}}},
+			Step{Step: "block", Txs: []Tx{{K: "ibtp", Src: s, Dst: d1, Idx: 2, Typ: "REQ", T: 2, Proof: "ok", From: "u1"}}},
+			Step{Step: "block", Txs: []Tx{{K: "ibtp", Src: s, Dst: d1, Idx: 1, Typ: "OK", Proof: "ok", From: "u2"}}},
+			Step{Step: "block", Txs: []Tx{{K: "ibtp", Src: s, Dst: d2, Idx: 1, Typ: last, Proof: "ok", From: "u2"}}})
+		next[s+">"+d1], nextR[s+">"+d1] = 3, 2
+		next[s+">"+d2], nextR[s+">"+d2] = 2, 2
+	}
 	pick := func() (string, string) {
 		for {
 			s, d := svcs[rng.Intn(len(svcs))], svcs[rng.Intn(len(svcs))]
